@@ -91,8 +91,8 @@ DEV_PID = 0
 
 def op(name, ts, dur, tid=HOST_TID, pid=HOST_PID, cat="cpu_op", **args):
     e = {"ph": "X", "cat": cat, "name": name, "pid": pid, "tid": tid, "ts": ts, "dur": dur}
-    if args:
-        e["args"] = args
+    # Kineto writes an args object for every operator ("External id", ...)
+    e["args"] = args if args else {"External id": 1}
     return e
 
 
